@@ -460,6 +460,9 @@ class Check:
         if w.timed_out:
             self.inconclusive.append("worker timed out after %.0fs: %s" % (w.wall, " ".join(w.argv[-6:])))
             return
+        if "VERIF-HANG" in w.err:
+            self.add_violation("hang:inside-Search::go(no node visit for 60 s)", {"case": case, "argv": w.argv[1:]})
+            return
         if j is None or w.rc != 0:
             # the engine crashed/aborted while computing an observation
             fatal = [r for r in reps if r["tool"] in ("asan", "bound")]
